@@ -370,7 +370,34 @@ def check_dbiter_confined(ctx):
               "the internal iterator flows only into ldb_dbiter_create", "internal iterator flow changed")
 
 
+STATIC_LOCALS_OK = {("ldb_crc32c_init", "result"): "one-time initialisation flag (volatile, idempotent)",
+                    ("ldb_crc32c_init", "lock"): "one-time initialisation flag (volatile, idempotent)",
+                    ("ldb_env_init", "guard"): "pthread_once control block"}
+
+
+def check_static_locals(ctx):
+    """Function-local static storage is shared by every thread and every
+    iterator of the process: a mutable one is a hidden global without a lock
+    (e.g. a slice returned by one iterator silently changes when another
+    iterator runs)."""
+    n = 0
+    for f in ctx.P.all_functions:
+        for b, i, e in f.events("decl"):
+            if not e.get("static"):
+                continue
+            n += 1
+            t = e.get("t") or ""
+            const = t.startswith("const ") or " const" in t
+            ok = const or (f.name, e["n"]) in STATIC_LOCALS_OK
+            ctx.check(ok, "T5-static-locals", "%s:%s" % (f.name, e["n"]), f.name, site(f, e),
+                      "constant table" if const else "listed: %s" % STATIC_LOCALS_OK.get((f.name, e["n"])),
+                      "mutable function-local static `%s %s` in %s: storage shared by all threads and iterators without a lock" % (t, e["n"], f.name),
+                      subject="static:%s:%s" % (f.name, e["n"]))
+    ctx.require(n >= 10, "static locals not found (%d)" % n)
+
+
 def check(ctx):
+    check_static_locals(ctx)
     la = check_lockset(ctx)
     check_contracts(ctx, la)
     check_exceptions(ctx, la)
